@@ -338,7 +338,16 @@ func guardText(e errorExit) string {
 			t = str(a.Tag) + " == " + t
 		}
 		if !a.Truth {
-			t = "!(" + t + ")"
+			// a false `x != nil` reads `x == nil` (and the other way round)
+			if be, ok := ast.Unparen(a.E).(*ast.BinaryExpr); ok && a.Tag == nil && (be.Op == token.EQL || be.Op == token.NEQ) {
+				op := " != "
+				if be.Op == token.NEQ {
+					op = " == "
+				}
+				t = str(be.X) + op + str(be.Y)
+			} else {
+				t = "!(" + t + ")"
+			}
 		}
 		parts = append(parts, t)
 	}
